@@ -1224,17 +1224,20 @@ class TaskPool:
             and self.runahead_limit_point > stop_point
         ):
             self.runahead_limit_point = stop_point
-            # Now handle existing waiting tasks (e.g. xtriggered).
-            for itask in self.get_tasks():
-                if (
-                    itask.point > stop_point
-                    and itask.state(TASK_STATUS_WAITING)
-                    and itask.state_reset(is_runahead=True)
-                ):
-                    self.data_store_mgr.delta_task_state(itask)
-                    # (a runahead-limited task must not stay queued, else
-                    # the queue would release it beyond the stop point)
-                    self.unqueue_task(itask)
+        # Now handle existing waiting tasks (e.g. xtriggered).
+        # (Even if the limit is not beyond the stop point now: it may have
+        # been when they were released, the limit moves back if a task is
+        # spawned before the current base point.)
+        for itask in self.get_tasks():
+            if (
+                itask.point > stop_point
+                and itask.state(TASK_STATUS_WAITING)
+                and itask.state_reset(is_runahead=True)
+            ):
+                self.data_store_mgr.delta_task_state(itask)
+                # (a runahead-limited task must not stay queued, else
+                # the queue would release it beyond the stop point)
+                self.unqueue_task(itask)
         return True
 
     def can_stop(self, stop_mode):
